@@ -3,9 +3,9 @@ CHECK = {
                         "C02.gen_structure", "C02.write_sim", "C02.drain_sim", "C02.run_sim",
                         "C02Heap.gen_structure", "C02Heap.gen_less", "C02Heap.gen_index", "C02Heap.gen_branches",
                         "C02Heap.c02_heap_invariant", "C02Heap.c02_heap_root_min", "C02Heap.c02_heap_pop_min", "C02Heap.c02_heap_push_perm",
-                        "C02Heap.c02_heap_fuel", "C02Heap.c02_heap_bridge_partial", "C02Heap.c02_heap_bridge", "C02Heap.drain_bridge", "C02Heap.ins_sorted", "C02Heap.ins_perm", "C02Heap.c02_heap_duplicate_wedges_witness", "C02Heap.c02_heap_duplicate_agrees_witness"],
+                        "C02Heap.c02_heap_fuel", "C02Heap.c02_heap_bridge_partial", "C02Heap.c02_heap_bridge", "C02Heap.gen_write_exits", "C02Heap.drain_bridge", "C02Heap.ins_sorted", "C02Heap.ins_perm", "C02Heap.c02_heap_duplicate_wedges_witness", "C02Heap.c02_heap_duplicate_agrees_witness"],
         "lean_module": "CloakModel.Props.C02All",
-        "scenarios": ["C02", "C02heap"],
+        "scenarios": ["C02", "C02heap", "C02far"],
         "reset_ops": ["sb.new", "hp.new", "hp.sbnew"],
         "rule": "every arrival order of n<=6 (quick) / n<=8 (thorough) frames x every closing position, reads interleaved from the seed, "
                 "bases 0 / near 2^32 / above 2^63; random permutations up to 200 (2000) frames incl. just below 2^64; malformed duplicate/stale stream. "
